@@ -146,3 +146,151 @@ def context_for(prop, history):
     if prop == "C08":
         return {"worker_table": worker_table(suite_path_of(scenario))}
     return {}
+
+
+# --------------------------------------------------------------------------------------------
+# dependency resolver (C07, also C05/C15): follows the get/set declarations on its own
+# --------------------------------------------------------------------------------------------
+
+def variant_token(vm_variant_name):
+    """The component that tells the variants of one vm apart (third component: vms.<vm>.<variant>)."""
+    parts = vm_variant_name.split(".")
+    return parts[2] if len(parts) > 2 and parts[0] == "vms" else parts[-1]
+
+
+def compose(suite_path, vm, token, test_restriction):
+    """Dictionaries of ``test_restriction`` in the context of one vm variant (parser alone)."""
+    key = ("compose", suite_path, vm, token, test_restriction)
+    if key not in _CACHE:
+        parser = MemoParser()
+        parser.parse_string("hostname = simhost\nsuite_path = %s\n" % suite_path)
+        parser.parse_file(os.path.join(suite_path, "configs", "vms.cfg"))
+        parser.parse_string("only %s\nonly %s\n" % (vm, token))
+        parser.parse_file(os.path.join(suite_path, "configs", "sets.cfg"))
+        parser.parse_string("only %s\n" % test_restriction)
+        try:
+            _CACHE[key] = list(parser.get_dicts())
+        except Exception:
+            _CACHE[key] = []
+    return _CACHE[key]
+
+
+def typed(d, key, typ, vm):
+    """Own suffix resolution: most specific of K_<type>_<vm>, K_<type>, K_<vm>, K."""
+    for k in (f"{key}_{typ}_{vm}", f"{key}_{typ}", f"{key}_{vm}", key):
+        if k in d:
+            return d[k]
+    return None
+
+
+def flat_part(name):
+    return name.split(".vms.")[0]
+
+
+def strip_set(flat):
+    """Drop the leading test-set variant (all, leaves, normal.nongui, ...)."""
+    for prefix in ("normal.nongui.", "normal.gui.", "all.", "leaves.", "nonleaves.", "normal.", "minimal."):
+        if flat.startswith(prefix):
+            return flat[len(prefix):]
+    return flat
+
+
+class Resolver:
+    def __init__(self, suite_path):
+        self.suite_path = suite_path
+        self.memo = {}
+
+    def test_dict(self, setless, vm, token):
+        ds = compose(self.suite_path, vm, token, "all.." + setless)
+        exact = [d for d in ds if strip_set(flat_part(d["name"])) == setless]
+        return exact[0] if exact else (ds[0] if len(ds) == 1 else None)
+
+    def producers(self, setless, vm, token, typ):
+        """Expanded producers [(setless name incl. clone branch, produced state)] for one object of a test."""
+        key = (setless, vm, token, typ)
+        if key in self.memo:
+            return self.memo[key]
+        self.memo[key] = []  # recursion guard
+        d = self.test_dict(setless, vm, token)
+        out = []
+        if d is not None:
+            restriction = typed(d, "get", typ, vm)
+            if restriction:
+                for cand in compose(self.suite_path, vm, token, "all.." + restriction):
+                    cname = strip_set(flat_part(cand["name"]))
+                    out += self.expand(cname, vm, token, typ)
+        self.memo[key] = out
+        return out
+
+    def expand(self, setless, vm, token, typ):
+        """A test as producer for (vm, typ): itself, or one clone per producer it depends on itself."""
+        d = self.test_dict(setless, vm, token)
+        if d is None:
+            return []
+        state = typed(d, "set_state", typ, vm) or ""
+        ups = self.producers(setless, vm, token, typ)
+        if len(ups) > 1:
+            return [(f"{setless}.{up_state}", (state + "." + up_state) if state else "") for (_, up_state) in ups]
+        return [(setless, state)]
+
+
+def check_dependencies(graph, suite_path, phase):
+    """C07: the edges of every composite node equal the resolver's."""
+    from travsim.graphcheck import V, dedup, label, is_clone_source, worker_of
+    out = []
+    res = Resolver(suite_path)
+    for n in graph.nodes:
+        if n.is_flat() or n.is_shared_root() or is_clone_source(n):
+            continue
+        name = n.params["name"]
+        flat = strip_set(flat_part(name))
+        accounted = set()
+        vm_objects = [o for o in n.objects if o.key == "vms"]
+        for vm_obj in vm_objects:
+            vm = vm_obj.suffix
+            token = variant_token(vm_obj.params["name"])
+            for typ, objs in (("vms", [vm_obj]), ("images", [o for o in n.objects if o.key == "images" and o.composites and o.composites[0] is vm_obj])):
+                for obj in objs:
+                    # the base test of a clone: strip trailing branch components until a test matches
+                    base, branch = flat, ""
+                    while res.test_dict(base, vm, token) is None and "." in base:
+                        base, last = base.rsplit(".", 1)
+                        branch = last + ("." + branch if branch else "")
+                    expected = res.producers(base, vm, token, typ)
+                    if branch and len(expected) > 1:
+                        expected = [e for e in expected if e[1] == branch or branch.endswith(e[1]) or e[1].endswith(branch)]
+                    actual = []
+                    for p, pobjs in n.setup_nodes.items():
+                        if p.is_flat() or p.is_shared_root():
+                            continue
+                        if any(po is obj or (po.key == obj.key and po.long_suffix == obj.long_suffix) for po in pobjs):
+                            actual.append(p)
+                            accounted.add(id(p))
+                    want = sorted({e[0] for e in expected})
+                    got = sorted({strip_set(flat_part(p.params["name"])) for p in actual})
+                    if len(want) > 1 and not branch:
+                        out.append(V("C07", "not-cloned", f"{label(n)} has several producers for one object but was not cloned per producer",
+                                     phase=phase, vm=vm, typ=typ, producers=want))
+                        continue
+                    if want != got:
+                        missing, spurious = sorted(set(want) - set(got)), sorted(set(got) - set(want))
+                        sig = "misses a declared dependency" if missing else "has a dependency the configuration does not declare"
+                        out.append(V("C07", "wrong-dependencies", f"{label(n)} {sig} ({typ} of {vm})", phase=phase,
+                                     missing=missing, spurious=spurious, worker=worker_of(n)))
+                    if len(actual) > len(set(got)):
+                        out.append(V("C07", "duplicated-dependency", f"{label(n)} has the same dependency twice ({typ} of {vm})",
+                                     phase=phase))
+                    # branch-specific state names of clones
+                    if branch and expected:
+                        from travsim.harness import read_objects
+                        mine = [o for o in read_objects(n.params) if o["vm"] == vm and o["type"] == typ]
+                        if mine and mine[0]["get_state"] != expected[0][1]:
+                            out.append(V("C07", "clone-state", f"a clone of {label(n)} does not start from its producer's state",
+                                         phase=phase, got=mine[0]["get_state"], want=expected[0][1]))
+        for p in n.setup_nodes:
+            if p.is_flat() or p.is_shared_root():
+                continue
+            if id(p) not in accounted:
+                out.append(V("C07", "unattributed-dependency", f"{label(n)} depends on {label(p)} through no object of its own",
+                             phase=phase))
+    return dedup(out)
